@@ -1,4 +1,4 @@
-import Cirbo.Proofs.Passes
+import Cirbo.Proofs.PassMuo
 /-!
 # MergeDuplicateGates preserves the function and the interface
 -/
@@ -247,9 +247,25 @@ theorem mdgFold_inv {c : Circuit} {b v : Label → Bool} (hwc : WFS c) (hv : IsV
     | error e => rw [hs, mdgStep_error] at h; cases h
     | ok s1 => rw [hs] at h; exact ih s1 st' (mdgStep_inv hwc hv hi hs) h
 
-/-- the structural part (no valuation needed): the rebuilt circuit satisfies the invariant -/
-theorem mdgFold_wfs {c : Circuit} : ∀ (ls : List Label) (st st' : MdgSt),
-    WFS st.n → ls.foldl (mdgStep c) (.ok st) = .ok st' → WFS st'.n := by
+theorem mapR_length {α β} (f : α → R β) : ∀ (l : List α) (ys : List β), mapR f l = .ok ys → ys.length = l.length := by
+  intro l
+  induction l with
+  | nil => intro ys h; simp only [mapR, Except.ok.injEq] at h; subst h; rfl
+  | cons x r ih =>
+    intro ys h
+    unfold mapR at h
+    cases h1 : f x with
+    | error e => simp [h1] at h
+    | ok y =>
+      simp only [h1] at h
+      cases h2 : mapR f r with
+      | error e => simp [h2] at h
+      | ok ys' => simp only [h2, Except.ok.injEq] at h; subst h; simp [ih ys' h2]
+
+/-- the structural part (no valuation needed): the rebuilt circuit satisfies the invariant and has
+gates shaped like the argument's -/
+theorem mdgFold_wfs {c : Circuit} (hio : ∀ g ∈ c.gates, g.ty = INPUT → g.ops = []) : ∀ (ls : List Label) (st st' : MdgSt),
+    WFS st.n ∧ SameShape c st.n → ls.foldl (mdgStep c) (.ok st) = .ok st' → WFS st'.n ∧ SameShape c st'.n := by
   intro ls
   induction ls with
   | nil => intro st st' hi h; simp only [List.foldl_nil, Except.ok.injEq] at h; subst h; exact hi
@@ -267,11 +283,22 @@ theorem mdgFold_wfs {c : Circuit} : ∀ (ls : List Label) (st st' : MdgSt),
       | none => simp [hf] at hs
       | some g =>
         simp only [hf] at hs
+        obtain ⟨hgm, _⟩ := find_some_mem hf
         by_cases ht : g.ty = INPUT
         · simp only [ht, if_true] at hs
           cases ha : st.n.addInputs [g.label] with
           | error e => simp [ha] at hs
-          | ok n' => simp only [ha, Except.ok.injEq] at hs; subst hs; exact addInputs_wfs _ hi ha
+          | ok n' =>
+            simp only [ha, Except.ok.injEq] at hs; subst hs
+            obtain ⟨a1, _, _⟩ := addInputs_spec _ _ _ ha
+            refine ⟨addInputs_wfs _ hi.1 ha, ?_⟩
+            intro g' hg'
+            simp only at hg'
+            rw [a1] at hg'
+            simp only [List.map_cons, List.map_nil, List.mem_append, List.mem_singleton] at hg'
+            rcases hg' with hg' | rfl
+            · exact hi.2 g' hg'
+            · exact ⟨g, hgm, rfl, ht.symm, by simp [hio g hgm ht]⟩
         · simp only [ht, if_false] at hs
           cases hm : mapR (mdgNewName st) g.ops with
           | error e => simp [hm] at hs
@@ -279,27 +306,22 @@ theorem mdgFold_wfs {c : Circuit} : ∀ (ls : List Label) (st st' : MdgSt),
             simp only [hm] at hs
             cases ha : st.n.addGate ⟨g.label, g.ty, ops⟩ with
             | error e => simp [ha] at hs
-            | ok n' => simp only [ha, Except.ok.injEq] at hs; subst hs; exact addGate_wfs (g := ⟨g.label, g.ty, ops⟩) hi (fun e => absurd e ht) ha
-
-theorem mapR_length {α β} (f : α → R β) : ∀ (l : List α) (ys : List β), mapR f l = .ok ys → ys.length = l.length := by
-  intro l
-  induction l with
-  | nil => intro ys h; simp only [mapR, Except.ok.injEq] at h; subst h; rfl
-  | cons x r ih =>
-    intro ys h
-    unfold mapR at h
-    cases h1 : f x with
-    | error e => simp [h1] at h
-    | ok y =>
-      simp only [h1] at h
-      cases h2 : mapR f r with
-      | error e => simp [h2] at h
-      | ok ys' => simp only [h2, Except.ok.injEq] at h; subst h; simp [ih ys' h2]
+            | ok n' =>
+              simp only [ha, Except.ok.injEq] at hs; subst hs
+              obtain ⟨_, _, hg1, _⟩ := addGate_fields ha
+              refine ⟨addGate_wfs (g := ⟨g.label, g.ty, ops⟩) hi.1 (fun e => absurd e ht) ha, ?_⟩
+              intro g' hg'
+              simp only at hg'
+              rw [hg1] at hg'
+              simp only [List.mem_append, List.mem_singleton] at hg'
+              rcases hg' with hg' | rfl
+              · exact hi.2 g' hg'
+              · exact ⟨g, hgm, rfl, rfl, mapR_length _ _ _ hm⟩
 
 /-- **MergeDuplicateGates**: every valuation of the argument is a valuation of the result; inputs
 kept; outputs redirected to gates of equal value -/
 theorem mdg_spec {c c' : Circuit} (hw : WFS c) (h : mdg c = .ok c') :
-    WFS c' ∧ c'.inputs = c.inputs ∧ c'.outputs.length = c.outputs.length ∧
+    WFS c' ∧ c'.inputs = c.inputs ∧ c'.outputs.length = c.outputs.length ∧ SameShape c c' ∧
     (∀ b v, IsValB c b v → IsValB c' b v ∧ c'.outputs.map v = c.outputs.map v) := by
   unfold mdg at h
   cases htr : traverse c false false (some c.outputs) true with
@@ -318,13 +340,16 @@ theorem mdg_spec {c c' : Circuit} (hw : WFS c) (h : mdg c = .ok c') :
         | error e => simp [hmo] at h
         | ok outs =>
           simp only [hmo] at h
-          have w0 : WFS st.n := mdgFold_wfs _ _ _ wfs_empty hf
+          obtain ⟨w0, sh0⟩ := mdgFold_wfs hw.inputOps _ _ _ ⟨wfs_empty, by intro g hg; simp [Circuit.empty] at hg⟩ hf
           have w2 : WFS n2 := setInputs_wfs w0 hsi
           have w3 : WFS c' := setOutputs_wfs w2 h
           obtain ⟨hoc, hic⟩ := setOutputs_outputs h
           obtain ⟨hi3, _⟩ := setInputs_inputs hsi
           have hg2 : n2.gates = st.n.gates := setInputs_gates hsi
-          refine ⟨w3, by rw [hic, hi3], by rw [hoc, mapR_length _ _ _ hmo], ?_⟩
+          refine ⟨w3, by rw [hic, hi3], by rw [hoc, mapR_length _ _ _ hmo], ?_, ?_⟩
+          · intro g' hg'
+            rw [setOutputs_gates h, hg2] at hg'
+            exact sh0 g' hg'
           intro b v hv
           have hi0 : MdgInv b v ⟨Circuit.empty, []⟩ :=
             ⟨wfs_empty, by intro g hg; simp [Circuit.empty] at hg, by intro p hp; simp at hp⟩
